@@ -18,7 +18,7 @@ import (
 func repoRuleNames() []string {
 	re := regexp.MustCompile(`Name:\s+"([A-Za-z]+)"`)
 	seen := map[string]bool{}
-	files, _ := filepath.Glob("/repo/validator/rules/*.go")
+	files, _ := filepath.Glob("/var/tmp/repo-snap3/validator/rules/*.go")
 	for _, f := range files {
 		if strings.HasSuffix(f, "_test.go") {
 			continue
